@@ -210,6 +210,9 @@ CLI_LAYOUTS = [
     ({"a.mac": SRC + "\t.byte\n"}, ".", ["a.mac", "-o", "-", "--report-format", "bare"], {"<stdout>": ("raw", None)}, "", IMG + b"\x00"),
     ({"a.mac": SRC + "\t.byte\n"}, ".", ["a.mac", "-o", "-", "--report-format", "graphical"], {"<stdout>": ("raw", None)}, "", IMG + b"\x00"),
     ({"a.mac": SRC + "\t.byte\n\tclr @r0\n"}, ".", ["a.mac", "-o-.bin", "--report-format", "bare", "-Wall"], {"<stdout>": ("bin", None)}, "", IMG + b"\x00\x08\x0a"),
+    ({"a.mac": SRC + "\t.byte\n"}, ".", ["a.mac", "-o-.BIN", "--report-format", "bare"], {"<stdout>": ("bin", None)}, "", IMG + b"\x00"),
+    ({"a.mac": SRC + "\t.byte\n"}, ".", ["a.mac", "-o-.rom", "--report-format", "bare"], {"<stdout>": ("raw", None)}, "", IMG + b"\x00"),
+    ({"a.mac": SRC + "\t.byte\n"}, ".", ["a.mac", "-o-.sav", "--report-format", "bare", "-Wall"], {"<stdout>": ("raw", None)}, "", IMG + b"\x00"),
     ({"keep": ""}, ".", ["-", "-o", "out.bin"], {"out.bin": ("bin", None)}, SRC),
     ({"keep": ""}, ".", ["-", "-o-.bin"], {"<stdout>": ("bin", None)}, SRC),
     ({"keep": ""}, ".", ["-", "--implicit-bin"], {"stdin.bin": ("bin", None)}, SRC),
